@@ -404,7 +404,12 @@ def r05_5(ctx, fx):
                 shapes |= fn.shape(st["rv"]["o"]) if st["rv"]["r"] == "use" else {st["rv"].get("var", "?")}
             ctx.ob("R05.5", "%s/enters-%s-only-if-can_dial==Ok" % (meth, var), ok and all(x.startswith(var) for x in shapes), site=fn.site(cd[0].node), cfg=fx.cfg, detail="state written: %s" % sorted(shapes))
             oks = [n for n, sh in fn.ret_sites() if sh == {"Ok"}]
-            ctx.ob("R05.5", "%s/Ok-implies-state-written" % meth, bool(oks) and all(n not in fn.reach([fn.entry], avoid=wr) for n in oks), site=fn.site(fn.entry), cfg=fx.cfg)
+            # .. or can_dial's answer is handed on (`let result = self.can_dial(); if let Ok = result { *self = .. } result`): that exit
+            # yields Ok exactly on the paths over the Ok edge, and on those the state is written first
+            passed = [n for n, sh in fn.ret_sites() if any(x.startswith("call:") and x.endswith("PeerState::can_dial") for x in sh)]
+            ok_starts = [n for n, l in fn.succs(sws[0][0]) if l in fn.variant_edges(sws[0], "Ok")]
+            ok2 = all(n not in fn.reach([fn.entry], avoid=wr) for n in oks) and all(n not in fn.reach(ok_starts, avoid=wr) for n in passed)
+            ctx.ob("R05.5", "%s/Ok-implies-state-written" % meth, bool(oks or passed) and ok2, site=fn.site(fn.entry), cfg=fx.cfg)
     fn = ctx.fn(fx, PSM + "on_dial_failure", "R05.5")
     if fn is not None:
         wr = [n for n, st in fn.assigns() if st["lhs"][:2] == [1, "*"] and len(st["lhs"]) == 2]
